@@ -728,6 +728,27 @@ func c25Boundary() []c25In {
 		b.at(0, 0, b.mint("k1", 0, 0)).at(1, 0, b.mint("k2", 0, 0)).at(1, 0, b.mint("k1", 1, 0)).at(2, 0, c25Trail(b.mint("k1", 0, 0), 2))
 		add(b)
 	}
+	// 6b. the same proof (kid, ts, nonce, MAC bytes) in its other wire spellings: the 43-char MAC
+	//     field has two spare bits, so three siblings of its last character decode to the same MAC
+	for _, mode := range []string{"require", "allow"} {
+		for _, cp := range []int{0, 2} {
+			b := c25New(mode, 30, cp, "respelled-replays")
+			p := b.mint("k1", 0, 0)
+			b.at(0, 0, p).at(1, 0, c25Trail(p, 1)).at(2, 0, c25Trail(p, 2)).at(3, 0, c25Trail(p, 3)).at(4, 0, p)
+			add(b)
+			// a non-canonical spelling first, then the others and the canonical one, at the window's end
+			b = c25New(mode, 30, cp, "respelled-replays")
+			p = b.mint("k2", 30, 1)
+			b.at(0, 0, c25Trail(p, 3)).at(0, 1, p).at(30, 0, c25Trail(p, 1)).at(60, 999999999, c25Trail(p, 2)).at(60, 999999999, c25Trail(p, 3))
+			add(b)
+		}
+		// an unrelated admission in between; inner nil; respelled replay of each of two proofs
+		b := c25New(mode, 5, 3, "respelled-replays")
+		b.in.Cfg.InnerNil = true
+		p, q := b.mint("k1", 0, 0), b.mint("k2", 1, 1)
+		b.at(0, 0, p).at(0, 5, q).at(1, 0, c25Trail(q, 1)).at(1, 1, c25Trail(p, 2)).at(5, 0, c25Trail(p, 1)).at(6, 0, c25Trail(q, 3))
+		add(b)
+	}
 	// 7. replay cache disabled: only the window bounds replay
 	{
 		b := c25New("require", 2, 0, "nocache-replays")
@@ -854,6 +875,9 @@ func c25Random(r *rand.Rand, tier string) c25In {
 			hd = variants[r.Intn(len(variants))][1].([]string)
 		} else {
 			hd = []string{pool[r.Intn(np)]}
+			if r.Intn(4) == 0 { // another wire spelling of the same proof
+				hd = []string{c25Trail(hd[0], 1+r.Intn(3))}
+			}
 		}
 		rq := c25Req{Tv: tv, Tc: tc, Hdrs: hd, Inner: c25OK}
 		if r.Intn(7) == 0 {
@@ -897,6 +921,6 @@ func c25Gen(r *rand.Rand, n int, tier string) []c25In {
 }
 
 func init() {
-	Register("C25", "boundary histories first (legacy witness; 48 malformed/foreign variants of a proof x require/allow, each before and after a valid proof; window edges +-skew, +-(skew+1) for four skews; replays across the whole TTL range; capacity c with c-1/c/c+1 admissions in between; nonce shared by two proxies; cache disabled; clock read twice straddling a second; clock backwards, pre-epoch clock, skew overflowing a Duration; constructor checks; inner outcomes; canonical-string probes), then random histories over a pool of proofs, variants, clock steps at the window/TTL edges and small capacities (thorough: goroutine-concurrent presentations). A case is non-trivial when it contains an admitted proof, a refusal, or canonical probes; distinct = distinct input JSON",
+	Register("C25", "boundary histories first (legacy witness; 48 malformed/foreign variants of a proof x require/allow, each before and after a valid proof; window edges +-skew, +-(skew+1) for four skews; replays across the whole TTL range; capacity c with c-1/c/c+1 admissions in between; nonce shared by two proxies; respelled replays (the three sibling spellings of the last MAC character, before/after the canonical one, at the window edge, small capacity); cache disabled; clock read twice straddling a second; clock backwards, pre-epoch clock, skew overflowing a Duration; constructor checks; inner outcomes; canonical-string probes), then random histories over a pool of proofs, variants, clock steps at the window/TTL edges and small capacities (thorough: goroutine-concurrent presentations). A case is non-trivial when it contains an admitted proof, a refusal, or canonical probes; distinct = distinct input JSON",
 		c25Gen, c25Run)
 }
